@@ -29,4 +29,44 @@ PerimeterBounds(P, S) == IF Len(P) < 3 THEN <<0, 0>> ELSE <<PerimLo(P, Len(P), S
 \* strict interior / exterior with winding number (for region comparisons)
 WindingOf(P, q) == Winding(P, q)
 GroupWinding(G, q) == [i \in DOMAIN G |-> Winding(G[i], q)]
+\* ---- region comparison on sample points (C05 C12 C13) ---------------------------------
+\* Everything below works in DOUBLED user coordinates: operand vertices are even, sample
+\* points are odd (cell centres), so a sample never lies on an axis-parallel edge or on a
+\* vertex.  S is the scaling of the operation (grid = 1/S user unit = 2/S doubled units).
+IsAxisParallel(a, b) == a[1] = b[1] \/ a[2] = b[2]
+\* squared distance from q to segment ab, as a comparison  dist > g  with g = 3/S doubled units
+\* (= 1.5 grid units), by cross-multiplication; all products fit 31 bits for S <= 100 and
+\* coordinates below 64
+FarFromSeg(a, b, q, S) ==
+    LET ab == VSub(b, a)
+        aq == VSub(q, a)
+        len2 == Dot(ab, ab)
+        t == Dot(aq, ab)
+    IN  IF len2 = 0 THEN Dot(aq, aq) * S * S > 9
+        ELSE IF t <= 0 THEN Dot(aq, aq) * S * S > 9
+        ELSE IF t >= len2 THEN Dot(VSub(q, b), VSub(q, b)) * S * S > 9
+        ELSE LET c == Cross(ab, aq) IN
+             \* |c| / sqrt(len2) > 3 / S   <=>   c^2 S^2 > 9 len2
+             IF c * c >= 9 * len2 THEN TRUE ELSE c * c * S * S > 9 * len2
+Edges(P) == {<<P[i], P[NextIdx(P, i)]>> : i \in DOMAIN P}
+GroupEdges(G) == UNION {Edges(G[i]) : i \in DOMAIN G}
+\* a sample is decisive when it is farther than 1.5 grid units from every operand edge that is
+\* not axis-parallel (only those can produce rounded intersection points)
+Far(G, q, S) == \A e \in GroupEdges(G) : IsAxisParallel(e[1], e[2]) \/ FarFromSeg(e[1], e[2], q, S)
+
+Samples(lo, hi) == {<<2 * x + 1, 2 * y + 1>> : x \in lo..hi, y \in lo..hi}
+InRegion(G, q) == \E i \in DOMAIN G : Winding(G[i], q) # 0      \* q is never on a boundary here
+Covering(G, q) == {i \in DOMAIN G : Winding(G[i], q) # 0}
+OpHolds(op, a, b) == CASE op = "or" -> a \/ b
+                       [] op = "and" -> a /\ b
+                       [] op = "not" -> a /\ ~b
+                       [] op = "xor" -> a # b
+GroupArea2(G) == LET RECURSIVE Sum(_)
+                     Sum(i) == IF i = 0 THEN 0 ELSE Area2(G[i]) + Sum(i - 1)
+                 IN  Sum(Len(G))
+GroupPerimLen(G) == LET RECURSIVE Sum(_)
+                        Sum(i) == IF i = 0 THEN 0 ELSE PerimeterBounds(G[i], 1)[2] + Sum(i - 1)
+                    IN  Sum(Len(G))
+AllManhattan(G) == \A e \in GroupEdges(G) : IsAxisParallel(e[1], e[2])
+
 =============================================================================
